@@ -21,6 +21,7 @@ var c03Customs = []ref.CharRecipe{
 	{AllowChars: "a1!", RequireSets: []string{"1!"}, ExcludeChars: "1"},
 	{RequireSets: []string{"xyz", "xyz"}, ExcludeChars: "x"},
 	{AllowChars: "ééé", RequireSets: []string{"", "é"}, ExcludeChars: "Aé"},
+	{AllowChars: "èêĩ", RequireSets: []string{"é"}}, // characters sharing UTF-8 lead/trail bytes with the required one
 }
 
 // c03Check validates one returned password against the model.
@@ -194,15 +195,70 @@ func c03Recipe(c *core.Ctx, r ref.CharRecipe, full bool) {
 	}
 }
 
+// c03Orders: Alphabet() and a generated password must not depend on the
+// iteration order of the class map (all 120 orders, instrumented build).
+func c03Orders(c *core.Ctx) {
+	if verifrtMissing() {
+		c.Incomplete("plain build: iteration order of the class map is the runtime's, not enumerated")
+		return
+	}
+	flags := []uint32{0, ref.Digits, ref.Symbols, ref.Ambiguous, ref.Digits | ref.Symbols, ref.Digits | ref.Ambiguous, ref.Symbols | ref.Ambiguous, ref.Digits | ref.Symbols | ref.Ambiguous}
+	if !c.Thorough() {
+		flags = []uint32{0, ref.Digits, ref.Symbols | ref.Ambiguous, ref.Digits | ref.Symbols | ref.Ambiguous}
+	}
+	for _, al := range flags {
+		for _, rq := range flags {
+			for _, ex := range flags {
+				if !c.Mine() {
+					continue
+				}
+				r := ref.CharRecipe{Length: 2, Allow: al, Require: rq, Exclude: ex, AllowChars: "a1"}
+				sr := toSpg(r)
+				ab := r.Alphabet()
+				if len(ab) == 0 || r.Count().Sign() == 0 {
+					continue
+				}
+				good := validIndices(r, ab)
+				var firstAb, firstPw string
+				n := 0
+				execs, _ := underAllOrders(func(site string) bool { return strings.HasPrefix(site, "char_gen.go") }, func(orders []string) bool {
+					a := sr.Alphabet()
+					t := policyTape(func(b uint32, i int) uint32 {
+						if int(b) == len(ab) {
+							return uint32(good[i%len(good)])
+						}
+						return 0
+					})
+					install(t)
+					out := runGen(sr.Generate)
+					pw := renderGen(out)
+					if n == 0 {
+						firstAb, firstPw = a, pw
+					} else if a != firstAb || pw != firstPw {
+						c.Violation("order "+mustJSON(recipeLit(r)), fmt.Sprintf("under class-map order %v: Alphabet %q, Generate %s; under the first order: %q, %s", orders, a, pw, firstAb, firstPw),
+							map[string]interface{}{"recipe": recipeLit(r), "orders": append([]string{}, orders...)})
+						return false
+					}
+					n++
+					return true
+				})
+				c.Count("executions", 2*execs)
+				c.Count("map_order_executions", execs)
+			}
+		}
+	}
+}
+
 func c03Run(c *core.Ctx) {
+	c03Orders(c)
 	lengths := []int{1, 2, 5}
 	for trip := 0; trip < 1<<15; trip++ {
 		al, rq, ex := uint32(trip&31), uint32(trip>>5&31), uint32(trip>>10&31)
 		sub := (al|rq|ex)&^(ref.Digits|ref.Symbols|ref.Ambiguous) == 0
+		if !c.MineKey(trip) {
+			continue // all custom settings and lengths of a flag triple run in one process, in sequence
+		}
 		for ci, cu := range c03Customs {
-			if !c.Mine() {
-				continue
-			}
 			for _, L := range lengths {
 				if !c.Thorough() && !sub && !(ci == trip%len(c03Customs) && L == 2) {
 					// quick: outside the 3-class subset one custom setting
@@ -225,8 +281,9 @@ func init() {
 	Register(&core.Check{
 		ID:    "C03",
 		Level: "model_checking",
-		Rule: "all 2^15 (allow,require,exclude) class-flag triples x 9 custom-string settings (multi-byte, duplicates, overlaps, emptied sets) x lengths {1,2,5} (quick: every triple once, the 3-class subset completely): Alphabet() compared with the model; Generate run on a policy tape with a valid first candidate, then with each position forced to each alphabet index (one deviation; thorough adds a second), then with a first candidate that misses each single requirement; " +
-			"every returned password checked token by token; non-trivial = distinct passwords observed",
+		Build: "inst",
+		Rule: "all 2^15 (allow,require,exclude) class-flag triples x 10 custom-string settings (multi-byte, duplicates, overlaps, emptied sets) x lengths {1,2,5} (quick: every triple once, the 3-class subset completely): Alphabet() compared with the model; Generate run on a policy tape with a valid first candidate, then with each position forced to each alphabet index (one deviation; thorough adds a second), then with a first candidate that misses each single requirement; " +
+			"every returned password checked token by token; plus 64 (thorough 512) triples of the 3-class subset under all 120 iteration orders of the class map (instrumented build); non-trivial = distinct passwords observed",
 		Assume:    []string{"deviation-bounded: at most 1 (quick) / 2 (thorough) draws deviate from the model's valid candidate per execution; complete cells are C02's"},
 		Run:       c03Run,
 		StatesKey: "executions", TransKey: "executions",
